@@ -82,3 +82,103 @@ Definition asgi_get (hdrs : store) (name : str) : option str := lookup hdrs (low
 Definition wsgi_query (q : str) : option str := Some q.
 Definition asgi_query (q : str) (utf8_strict : option str) : option str :=
   if is_ascii q then Some q else utf8_strict.
+
+(* ---- access_route / remote_addr: the two classes carry their own copy of the computation
+   (falcon/request.py:Request.access_route, remote_addr; falcon/asgi/request.py likewise).
+   Header arguments are Some v iff the header is present; [peer] = REMOTE_ADDR resp. the host of
+   scope['client'] (None = key missing). *)
+Definition s_localhost : str := Eval vm_compute in lit "127.0.0.1".
+
+Definition wsgi_header_route (fixed : bool) (fwd xff xreal : option str) : res (list str) :=
+  match fwd with
+  | Some h => route_of_hops fixed (parse_forwarded h)      (* for hop in self.forwarded or () *)
+  | None =>
+    match xff with
+    | Some v => Ok (map strip_ws (split_chr comma v))
+    | None => match xreal with Some v => Ok [v] | None => Ok [] end
+    end
+  end.
+
+Definition wsgi_remote_addr (peer : option str) : str :=
+  match peer with Some v => v | None => s_localhost end.
+
+Definition wsgi_access_route (fixed : bool) (fwd xff xreal peer : option str) : res (list str) :=
+  match wsgi_header_route fixed fwd xff xreal with
+  | Ok (x :: r) =>
+    if negb (str_eqb (last (x :: r) []) (wsgi_remote_addr peer))
+    then Ok ((x :: r) ++ [wsgi_remote_addr peer]) else Ok (x :: r)
+  | Ok [] => Ok [wsgi_remote_addr peer]
+  | Http400 => Http400
+  | Crash k => Crash k
+  end.
+
+Definition asgi_header_route (fixed : bool) (fwd xff xreal : option str) : res (list str) :=
+  match fwd with
+  | Some h => route_of_hops fixed (parse_forwarded h)
+  | None =>
+    match xff with
+    | Some v => Ok (map strip_ws (split_chr comma v))
+    | None => match xreal with Some v => Ok [v] | None => Ok [] end
+    end
+  end.
+
+Definition asgi_access_route (fixed : bool) (fwd xff xreal peer : option str) : res (list str) :=
+  let client := match peer with Some c => c | None => s_localhost end in
+  match asgi_header_route fixed fwd xff xreal with
+  | Ok (x :: r) =>
+    if negb (str_eqb (last (x :: r) []) client) then Ok ((x :: r) ++ [client]) else Ok (x :: r)
+  | Ok [] => Ok (if nonempty client then [client] else [])
+  | Http400 => Http400
+  | Crash k => Crash k
+  end.
+
+(* asgi remote_addr: route = self.access_route; return route[-1] *)
+Definition asgi_remote_addr (fixed : bool) (fwd xff xreal peer : option str) : res str :=
+  match asgi_access_route fixed fwd xff xreal peer with
+  | Ok r => match rev r with x :: _ => Ok x | [] => Crash CIndexError end
+  | Http400 => Http400
+  | Crash k => Crash k
+  end.
+
+(* ---- response body selection: Response.render_body (used by falcon.App) and the copy inlined
+   in falcon.asgi.App.__call__ for the stock response class.  [text] = Some (utf-8 bytes of
+   resp.text) iff resp.text is not None; [media] = Some (handler.serialize(resp.media)) iff
+   resp.media is not None (serialization: oracle). *)
+Definition wsgi_render_body (text data media : option str) : option str :=
+  match text with
+  | None => match data with
+            | None => match media with Some rendered => Some rendered | None => None end
+            | Some d => Some d
+            end
+  | Some t => Some t
+  end.
+
+Definition asgi_inline_render_body (text data media : option str) : option str :=
+  match text with
+  | None => match data with
+            | None => match media with Some rendered => Some rendered | None => None end
+            | Some d => Some d
+            end
+  | Some t => Some t
+  end.
+
+(* what is sent: (body bytes, Content-Length) *)
+Definition sent (body : option str) : str * nat :=
+  match body with Some b => (b, List.length b) | None => ([], O) end.
+
+(* ---- request target: a server splits the request-target at the FIRST "?" (RFC 9112 3.2:
+   origin-form = absolute-path [ "?" query ]); falcon.testing._prepare_sim_args does
+   path.split('?', 1) when the path carries the query inline *)
+Definition qmark : N := 63.
+Definition target_split (target : str) : str * str :=
+  let '(p, _, q) := partition_chr qmark target in (p, q).
+Definition sim_split (path : str) (query_string : option str) : option (str * str) :=
+  if char_in qmark path then
+    match query_string with
+    | Some (_ :: _) => None                      (* ValueError: two ways of giving the query *)
+    | _ => match split_chr qmark path with
+           | p :: rest => Some (p, join_chr qmark rest)      (* path.split('?', 1) *)
+           | [] => None
+           end
+    end
+  else Some (path, match query_string with Some q => q | None => [] end).
